@@ -356,3 +356,7 @@ def check(ctx):
     # ... and an undefined reference falls back to the enforcer's default
     # rule, which the store must therefore carry (= C03.DEFAULT-SRC)
     ctx.borrow('C06.UNDEFINED', check_default_src)
+    # ... through Rules.__missing__, for every kind of default rule (a name
+    # the store defines, a check object; = C03.MISSING)
+    from .c03 import check_missing
+    ctx.borrow('C06.UNDEFINED', check_missing, only=['C03.MISSING'])
